@@ -158,7 +158,7 @@ def monitor(spec, res, acc):
             cov["d_preirr"] += 1
         if s.get("IrrNet", 0) > 0:
             cov["d_irrnet"] += 1
-        if f[FX["Infl"]] < 0:
+        if f[FX["Infl"]] < -1e-9:
             cov["d_neg_infl"] += 1
         prev = s
     kinds = sum(1 for k in ("d_runoff", "d_deep_perc", "d_pond", "d_cr", "d_gwin", "d_irrnet")
